@@ -167,3 +167,18 @@ def build(reg, src):
         return rows
     define_clears_caches.__name__ = 'define-clears-caches'
     reg.extra_checks.append(define_clears_caches)
+
+    # ... and __setitem__ / __delitem__ themselves clear the compiled cache on EVERY rebinding (also inside a function body): C09's
+    # contracts of the two methods, re-verified here
+    def setitem_clears_caches(ctx):
+        from pyvc.subverify import subverify
+        from contracts import c09
+        import replay.c05 as rp5
+        KI_ = 'klongpy/interpreter.py::KlongInterpreter.'
+        rows, _ = subverify(src, 'C04', c09, [KI_ + '__setitem__', KI_ + '__delitem__'], replay=rp5.replay_rebinding,
+                            why='every (re)binding and deletion clears the compiled-expression cache')
+        for k in (KI_ + '__setitem__', KI_ + '__delitem__'):
+            ctx['eng'].verified[k] = dict(sha=src.sha(src.find(k)), backend='z3 (contract of contracts/c09.py)')
+        return rows
+    setitem_clears_caches.__name__ = 'setitem-clears-caches'
+    reg.extra_checks.append(setitem_clears_caches)
